@@ -682,6 +682,22 @@ def r_samples_voxel(rule, root=None):
         rule.ok("the k-th gradient result is stored in the pixel whose offset was remembered in slot k")
     else:
         rule.bad("samples|voxel|normal-slot", "the pixel offset of a surface voxel must be remembered at the same running index as its gradient seeds (`columns[grad] = o; grad += 1`) and the normals written back in step with those slots", A.where(fn))
+    # every pixel whose depth is recorded also gets its gradient sample: nothing between the depth assignment
+    # and the slot bookkeeping may leave the iteration (a skipped pixel keeps a zero / stale normal)
+    dep = [a for a in A.find(fn["body"], "Assign") if str(txt(a["left"])).endswith(".depth")]
+    slotw = [a for a in A.find(fn["body"], "Assign") if re.fullmatch(r"self\.scratch\.columns\[\w+\]", str(txt(a["left"])))]
+    if len(dep) == 1 and slotw:
+        lo, hi = dep[0]["ln"], max(a["ln"] for a in slotw)
+        exits = [n for n in A.walk(fn["body"]) if isinstance(n, dict) and n.get("k") in ("Continue", "Break", "Return") and lo < n.get("ln", 0) <= hi]
+        conds_ = [c for a in slotw for c in (A.enclosing_conds(fn["body"], a) or [])]
+        conds_d = A.enclosing_conds(fn["body"], dep[0]) or []
+        extra = [c for c in conds_ if c not in conds_d]
+        if exits:
+            rule.bad("samples|voxel|normal-skip", "a pixel whose depth was just recorded can leave the iteration before its gradient sample is queued (`%s` under `%s`): it keeps a zero or stale normal" % (A.unparse(exits[0])[:20], " && ".join(A.enclosing_conds(fn["body"], exits[0]) or [])[:80]), A.where(fn, exits[0]))
+        elif extra:
+            rule.bad("samples|voxel|normal-skip", "the gradient sample of a pixel whose depth was recorded is queued only under `%s`" % extra[0][:80], A.where(fn, slotw[0]))
+        else:
+            rule.ok("every pixel whose depth is recorded has its gradient sample queued")
     if t.fmatch("self.out[*$O].normal=[$G.dx,$G.dy,$G.dz];") is not None or t.fmatch("self.out[$O].normal=[$G.dx,$G.dy,$G.dz];") is not None:
         rule.ok("normals are read as (dx, dy, dz)")
     else:
